@@ -616,6 +616,33 @@ def check_ccg(ctx):
     shape.match(ctx, "R18.4", CCG + ".tree2diagram:dom", domv, "Ty().tensor(*[child.cod for child in children])", {}, mod=CCG, node=t2, sig="dom")
 
 
+def check_translation_functor(ctx):
+    """R18.1: biclosed2rigid is the biclosed functor whose object map sends an atom to the rigid type of the same name and whose arrow map sends a box (a word included) to the rigid
+    box of the same name typed by the images of its domain and codomain; a word without a domain has the empty type OF ITS OWN KIND as domain"""
+    m = ctx.model
+    BIC_ = "discopy.biclosed"
+    va = m.module_assigns[BIC_]
+    shape.match(ctx, "R18.1", BIC_ + ".biclosed2rigid_ob", va.get("biclosed2rigid_ob"), "Functor(ob=lambda x: rigid.Ty(x[0].name), ar={}, ob_factory=rigid.Ty)", {}, mod=BIC_, node=va.get("biclosed2rigid_ob"), sig="b2r-ob",
+                required="an atomic type goes to the rigid type of the same name")
+    shape.match(ctx, "R18.1", BIC_ + ".biclosed2rigid", va.get("biclosed2rigid"),
+                "Functor(ob=biclosed2rigid_ob, ar=lambda f: rigid.Box(f.name, biclosed2rigid_ob(f.dom), biclosed2rigid_ob(f.cod)), ob_factory=rigid.Ty, ar_factory=rigid.Diagram)", {}, mod=BIC_,
+                node=va.get("biclosed2rigid"), sig="b2r", required="every box (words included) goes to the rigid box of the same name whose domain and codomain are the images of the box's own")
+    wi = m.func("discopy.grammar.cfg.Word.__init__")
+    ctx.analysed("discopy.grammar.cfg.Word.__init__")
+    dv = next((s.value for s in wi.body if isinstance(s, ast.Assign) and ast.unparse(s.targets[0]) == "dom"), None)
+    default = None
+    if isinstance(dv, ast.BoolOp) and isinstance(dv.op, ast.Or) and len(dv.values) == 2 and ast.unparse(dv.values[0]) == "dom":
+        default = dv.values[1]
+    elif isinstance(dv, ast.IfExp) and ast.unparse(dv.test) == "dom is None" and ast.unparse(dv.orelse) == "dom":
+        default = dv.body
+    ctx.need(default is not None, "cfg.Word.__init__: the default of `dom` is not `dom or <default>`")
+    okd = isinstance(default, ast.Subscript) and ast.unparse(default.value) == "cod" and isinstance(default.slice, ast.Slice) and ast.unparse(default) in ("cod[0:0]", "cod[:0]")
+    ctx.ob("R18.1", "discopy.grammar.cfg.Word.__init__:default-domain", okd, found=ast.unparse(dv), required="the empty type obtained by slicing the codomain (cod[0:0]): it has the type class of the word — slices of a categorial "
+           "type are categorial types, which the translation to rigid diagrams relies on", mod="discopy.grammar.cfg", node=wi, sig="word-default-dom")
+    sup = next((c for c in ast.walk(wi) if isinstance(c, ast.Call) and ast.unparse(c.func) == "super().__init__"), None)
+    shape.match(ctx, "R18.1", "discopy.grammar.cfg.Word.__init__:box", sup, "super().__init__(name, dom, cod, data=data, _dagger=_dagger)", {}, mod="discopy.grammar.cfg", node=wi, sig="word-box")
+
+
 def check_box_guards(ctx):
     """R18.5: each biclosed rule box only accepts the slash types whose parts its dom / cod formula reads (grammaticality of a derivation step)"""
     from ..cfg import CFG as FlowGraph
@@ -689,6 +716,7 @@ def check(ctx):
     ctx.attempt(check_cfg, ctx)
     ctx.attempt(check_ccg, ctx)
     ctx.rule("R18.5", "the biclosed rule boxes refuse operands that are not slash types of the required direction or do not share their middle type")
+    ctx.attempt(check_translation_functor, ctx)
     ctx.attempt(check_box_guards, ctx)
     ctx.attempt(check_slash_equality, ctx)
     ctx.rule("R18.6", "what the front-ends rely on: equality of rigid objects / types (C03), swaps for the crossed compositions (C10)")
